@@ -185,7 +185,64 @@ def _gen_twin_case(rng):
     }
 
 
+def _callish(case, i):
+    """interface i is created by InterfaceClass(name, bases, D<i>): the caller keeps the dict"""
+    pyname = case.get("pyname")
+    return case["style"][i - 1] == "call" or not case["bases"][i - 1] or bool(pyname and pyname[i - 1] != i)
+
+
+def _add_snaps(rng, case):
+    """warm-then-rebase-an-ancestor-then-ask for EVERY accessor: before a rebasing of x, observe all
+    accessors on some strict descendants of x (and sometimes x); sometimes again right afterwards
+    (the final snapshot asks everybody once more anyway)"""
+    n = case["n"]
+    cur = {i + 1: list(b) for i, b in enumerate(case["bases"])}
+    out = []
+    for op in case["ops"]:
+        if op[0] != "setbases":
+            out.append(op)
+            continue
+        x = op[1]
+        desc = [y for y in range(1, n + 1) if y != x and _reaches(cur, y, x)]
+        picked = []
+        if desc and rng.random() < 0.75:
+            picked = rng.sample(desc, min(len(desc), rng.choice([1, 1, 2])))
+        if rng.random() < 0.2:
+            picked.append(x)
+        out += [["snap", y] for y in picked]
+        out.append(op)
+        cur[x] = list(op[2])
+        if picked and rng.random() < 0.4:
+            out.append(["snap", rng.choice(picked)])
+    case["ops"] = out
+
+
+def _add_dict_ops(rng, case):
+    """the caller mutates / reuses the dict it passed to InterfaceClass(name, bases, d): no effect allowed"""
+    n = case["n"]
+    callish = [i for i in range(1, n + 1) if _callish(case, i)]
+    if not callish:
+        return
+    reuse = {}
+    for k, i in enumerate(callish):
+        if k and rng.random() < 0.3:
+            reuse[str(i)] = rng.choice(callish[:k])
+    if reuse:
+        case["dictreuse"] = reuse
+    ops = case["ops"]
+    for _ in range(rng.choice([0, 1, 1, 2, 3])):
+        op = ["dictmut", rng.choice(callish), rng.choice(["add", "add", "del", "del", "clear"]), rng.randrange(K_NAMES)]
+        ops.insert(rng.randint(0, len(ops)), op)
+
+
 def _gen_case(rng):
+    case = _gen_case0(rng)
+    _add_snaps(rng, case)
+    _add_dict_ops(rng, case)
+    return case
+
+
+def _gen_case0(rng):
     if rng.random() < 0.2:
         return _gen_twin_case(rng)
     diamond = rng.random() < 0.75
@@ -262,7 +319,8 @@ def _gen_case(rng):
             t = rng.randint(1, K_TAGS)
             ops.append(["settag", x, t, _tagval(rng, 1000 + 10 * x + t)])
         cands = [x for x in range(1, n + 1) if not (keep_diamond and x in (2, 3, 4))]
-        x = rng.choice(cands)
+        withdesc = [x for x in cands if any(y != x and _reaches(cur, y, x) for y in range(1, n + 1))]
+        x = rng.choice(withdesc if withdesc and rng.random() < 0.6 else cands)
         ok = [y for y in range(1, n + 1) if y != x and not _reaches(cur, y, x)]
         r = rng.random()
         if not ok or r < 0.1:
@@ -324,14 +382,17 @@ def _tval(v):
 
 
 def _op(op):
+    if op[0] == "snap":
+        return "TSnap %d" % op[1]
     if op[0] == "setbases":
-        return "OSetBases %d %s" % (op[1], _ln(op[2]))
+        return "TOp (OSetBases %d %s)" % (op[1], _ln(op[2]))
     if op[0] == "settag":
-        return "OSetTag %d %d %s" % (op[1], op[2], _tv(op[3]))
-    return "OGet %d %d" % (op[1], op[2])
+        return "TOp (OSetTag %d %d %s)" % (op[1], op[2], _tv(op[3]))
+    return "TOp (OGet %d %d)" % (op[1], op[2])
 
 
 def _input(case):
+    # "dictmut" steps are not given to the model: the caller's dict is not the interface's
     n = case["n"]
     graph = ["(0, [])"] + ["(%d, %s)" % (i + 1, _ln(b)) for i, b in enumerate(case["bases"])]
     attrs = ["(%d, %s)" % (i + 1, C.clist(["(%d, %d)" % (a[0], i + 1) for a in al]))
@@ -344,7 +405,7 @@ def _input(case):
         tags.append("(%d, %s)" % (i + 1, C.clist(tl)))
     return "(mkIn %d %s %s %s %s %s %s %s %s)" % (
         n, C.clist(graph), C.clist(attrs), C.clist(tags), _ln(case["failing"]),
-        C.clist([_op(o) for o in case["ops"]]), _ln(case["names"]), _ln(case["tagsU"]), _ln(case["nodes"]))
+        C.clist([_op(o) for o in case["ops"] if o[0] != "dictmut"]), _ln(case["names"]), _ln(case["tagsU"]), _ln(case["nodes"]))
 
 
 def _on(x):
@@ -362,9 +423,10 @@ def _nobs(o):
 
 def coq_case(case, obs, mode):
     if "exc" in obs:
-        return "(%s, false, [], [])" % _input(case)
-    return "(%s, true, %s, %s)" % (_input(case), C.clist([_on(x) for x in obs["gets"]]),
-                                   C.clist([_nobs(o) for o in obs["snap"]]))
+        return "(%s, false, [], [], [])" % _input(case)
+    return "(%s, true, %s, %s, %s)" % (_input(case), C.clist([_on(x) for x in obs["gets"]]),
+                                       C.clist([_nobs(o) for o in obs["snaps"]]),
+                                       C.clist([_nobs(o) for o in obs["snap"]]))
 
 
 # ------------------------------------------------------------------ coverage
@@ -424,7 +486,7 @@ def classify(case, obs):
         return None
     kinds = [op[0] for op in case["ops"]]
     nreb = kinds.count("setbases")
-    get_before = "get" in kinds[:kinds.index("setbases")] if nreb else False
+    get_before = bool({"get", "snap"} & set(kinds[:kinds.index("setbases")])) if nreb else False
     return (tuple(tuple(cur[i]) for i in sorted(cur)),
             tuple(tuple(sorted(a[0] for a in al)) for al in case["attrs"]),
             tuple(tuple(sorted(tg[i])) for i in sorted(tg)), nreb, get_before, tuple(case.get("pyname") or ()))
